@@ -15,5 +15,83 @@ pub(crate) fn decode<'de, T>(bytes: &'de [u8]) -> Result<T, Error>
 where
     T: Deserialize<'de>,
 {
+    precheck(bytes)?;
     serde_bencode::from_bytes(bytes)
+}
+
+/// Maximum nesting of lists/dictionaries accepted in an incoming message (KRPC needs 3).
+const MAX_DEPTH: usize = 32;
+
+/// Linear, non-recursive scan of the token stream that the bencode library is going to read.
+///
+/// The library allocates the declared length of a byte string *before* reading it and recurses
+/// once per nesting level, so a tiny datagram such as `d1:t99999999999:` aborts the process and
+/// a datagram made of `l`s overflows the stack. Reject byte strings whose declared length exceeds
+/// the rest of the input and inputs nested deeper than `MAX_DEPTH`. Anything else (including
+/// malformed input) is left for the library to accept or reject as before. Like the library, the
+/// scan ends with the first complete top-level value; trailing bytes are ignored.
+fn precheck(bytes: &[u8]) -> Result<(), Error> {
+    let mut depth = 0usize;
+    let mut i = 0usize;
+
+    while i < bytes.len() {
+        match bytes[i] {
+            b'i' => {
+                // integer: skip to the terminating `e`
+                i += 1;
+                while i < bytes.len() && bytes[i] != b'e' {
+                    i += 1;
+                }
+                i += 1;
+            }
+            b'0'..=b'9' => {
+                let start = i;
+                while i < bytes.len() && bytes[i] != b':' {
+                    i += 1;
+                }
+                if i >= bytes.len() {
+                    // truncated length prefix: the library reports end of stream
+                    return Ok(());
+                }
+                let len = match std::str::from_utf8(&bytes[start..i])
+                    .ok()
+                    .and_then(|s| s.parse::<usize>().ok())
+                {
+                    Some(len) => len,
+                    // malformed length prefix: the library rejects it without allocating
+                    None => return Ok(()),
+                };
+                i += 1;
+                if len > bytes.len() - i {
+                    return Err(Error::InvalidValue(
+                        "byte string length exceeds input".to_owned(),
+                    ));
+                }
+                i += len;
+            }
+            b'l' | b'd' => {
+                depth += 1;
+                if depth > MAX_DEPTH {
+                    return Err(Error::InvalidValue("nesting too deep".to_owned()));
+                }
+                i += 1;
+            }
+            b'e' => {
+                if depth == 0 {
+                    return Ok(());
+                }
+                depth -= 1;
+                i += 1;
+            }
+            // invalid character: the library rejects it
+            _ => return Ok(()),
+        }
+
+        if depth == 0 {
+            // first top-level value complete
+            return Ok(());
+        }
+    }
+
+    Ok(())
 }
